@@ -11,7 +11,7 @@ RULE = ("complete enumeration: 15 keys x every interval in [-300,300] and 48 far
         "bars with keys, tokeniser annotations, repeated transposition chains; distinct = distinct (prelude, argument "
         "tuple); non-trivial = all but interval 0 / a == b")
 ASSUMPTIONS = ["tonic table and major-scale pattern of the oracle are written independently in this file"]
-REQUIRED_FLAGS = ["transpose_multiple_of_12", "transpose_negative", "enharmonic_key_transposed", "cof_tritone", "transpose_beyond_pitch_range", "numpy_integer_arguments"] + \
+REQUIRED_FLAGS = ["transpose_multiple_of_12", "transpose_negative", "enharmonic_key_transposed", "cof_tritone", "transpose_beyond_pitch_range", "numpy_integer_arguments", "key_transposed_through_objects"] + \
                  ["prelude:" + x for x in ("none", "key_guess", "from_distance_first", "tokeniser_info")]
 
 TONIC = {"C": 0, "G": 7, "D": 2, "A": 9, "E": 4, "B": 11, "F#": 6, "C#": 1, "F": 5, "Bb": 10, "Eb": 3, "Ab": 8,
@@ -79,6 +79,8 @@ def units(ctx):
             yield ("cof", pr, a)
     for typ in ("int64", "int32", "int16", "uint8", "int8"):
         yield ("typed", "none", typ)
+    for k1 in KEYS:
+        yield ("objects", "none", k1)
 
 
 def fold(x):
@@ -95,6 +97,33 @@ def tonic_of(key):
 def check_case(case, ctx):
     out = []
     kind = case[0]
+    if kind in ("seq_keys", "bar_keys"):
+        from mc import lib
+        from scoda.elements.bar import Bar
+        k1, k2, i = case[1], case[2], case[3]
+        s = lib.seq_abs([(0, 12, 60, 0, 64)], [("ks", 0, k1), ("ks", 48, k2)] if kind == "seq_keys" else [("ks", 48, k2)], 96)
+        try:
+            if kind == "seq_keys":
+                s.transpose(i)
+                bar_key = None
+            else:
+                b = Bar(s, 4, 4, Key(k1))
+                b.transpose(i)
+                s, bar_key = b.sequence, b.key_signature
+        except Exception as e:  # noqa: BLE001
+            return [("transposing_object_raises", f"{kind} {k1},{k2} by {i}: {type(e).__name__}: {e}")]
+        got = [(e[0], e[7]) for e in lib.view_abs(s)[0] if e[1] == "key_signature"]
+        want = ([(0, (TONIC[k1] + i) % 12)] if kind == "seq_keys" else []) + [(48, (TONIC[k2] + i) % 12)]
+        gt = [(t, TONIC.get(k)) for t, k in got]
+        if kind == "seq_keys" and k1 == k2:      # a restated key may be kept or dropped; only its value is demanded
+            wrong = not gt or any(x[1] != want[0][1] for x in gt)
+        else:
+            wrong = gt != want
+        if wrong:
+            out.append(("key_event_not_shifted_by_the_interval", f"{kind} {k1},{k2} by {i}: key events {got}"))
+        if kind == "bar_keys" and (not isinstance(bar_key, Key) or TONIC[bar_key.value] != (TONIC[k1] + i) % 12):
+            out.append(("bar_key_not_shifted_by_the_interval", f"bar in {k1} holding a {k2} signature, by {i}: bar key {bar_key!r}"))
+        return out
     if kind in ("cof_t", "transpose_t"):
         import numpy as np
         T = getattr(np, case[1])
@@ -184,6 +213,11 @@ def cases_of(unit):
     if kind == "additive":
         return [("additive", k, i, j) for k in KEYS for i in range(-13, 14) for j in range(-13, 14)] + \
                [("additive", k, i, j) for k in KEYS for i in BIG for j in list(range(-13, 14)) + BIG]
+    if kind == "objects":
+        # key transposition reached through the outer objects: a sequence with two key signatures (every ordered pair of
+        # the 15 keys) and a bar whose own key differs from a key signature inside its sequence, x every interval -12..12
+        return [("seq_keys", unit[2], k2, i) for k2 in KEYS for i in range(-12, 13)] + \
+               [("bar_keys", unit[2], k2, i) for k2 in KEYS for i in range(-12, 13)]
     if kind == "typed":
         # the same pitches / intervals handed over as numpy integers (as they come out of note arrays / np.arange)
         typ = unit[2]
@@ -212,6 +246,8 @@ def run_unit(unit, acc, ctx):
                 acc.flag("transpose_beyond_pitch_range")
             if c[1] in ("Db", "Gb", "Cb"):
                 acc.flag("enharmonic_key_transposed")
+        if c[0] in ("seq_keys", "bar_keys"):
+            acc.flag("key_transposed_through_objects")
         if c[0] in ("cof_t", "transpose_t"):
             acc.flag("numpy_integer_arguments")
         if c[0] == "cof" and (c[2] - c[1]) % 12 == 6:
